@@ -135,7 +135,11 @@ pub fn full_map<const N: usize>() -> (Map<Tok, Tok, N>, Model<N>) {
 /// assertion is a statement about every key at once (DESIGN.md 4.5).
 /// ids: 201 len, 202 iteration count, 203 per-key multiplicity, 204 lookup, 205 is_empty,
 /// 206 len<=capacity, 207 yielded value, 208 stored key/value object identity, 904 yield of dead data
-pub fn observe<const N: usize>(m: &Map<Tok, Tok, N>, md: &Model<N>) {
+pub fn observe<const N: usize>(m: &Map<Tok, Tok, N>, md: &Model<N>) { observe_impl(m, md, true) }
+/// same associations (key class -> value class), but held in other objects (a clone, a deserialised copy)
+pub fn observe_copy<const N: usize>(m: &Map<Tok, Tok, N>, md: &Model<N>) { observe_impl(m, md, false) }
+#[inline(always)]
+fn observe_impl<const N: usize>(m: &Map<Tok, Tok, N>, md: &Model<N>, identity: bool) {
     vf::check(m.len() == md.n, 201);
     vf::check(m.is_empty() == (md.n == 0), 205);
     vf::check(m.capacity() == N && m.len() <= m.capacity(), 206);
@@ -145,7 +149,7 @@ pub fn observe<const N: usize>(m: &Map<Tok, Tok, N>, md: &Model<N>) {
     match (m.get_key_value(&probe), want) {
         (Some((k, v)), Some(i)) => {
             vf::check(k.key() == q && v.key() == md.vals[i], 204);
-            vf::check(k.serial() == md.ks[i] && v.serial() == md.vs[i], 208);
+            if identity { vf::check(k.serial() == md.ks[i] && v.serial() == md.vs[i], 208); }
         }
         (None, None) => {}
         _ => vf::check(false, 204),
@@ -158,7 +162,10 @@ pub fn observe<const N: usize>(m: &Map<Tok, Tok, N>, md: &Model<N>) {
         if k.key() == q {
             cnt += 1;
             match want {
-                Some(i) => vf::check(v.key() == md.vals[i] && v.serial() == md.vs[i] && k.serial() == md.ks[i], 207),
+                Some(i) => {
+                    vf::check(v.key() == md.vals[i], 207);
+                    if identity { vf::check(v.serial() == md.vs[i] && k.serial() == md.ks[i], 208); }
+                }
                 None => {}
             }
         }
